@@ -106,7 +106,96 @@ pub fn run_faulty(items: &[u32], api: u8) -> Vec<Ev> {
     }
 }
 
+/// embedded-hal 0.2 serial source following a schedule: bytes, WB -> nb::Error::WouldBlock, OTH -> nb::Error::Other(code);
+/// an exhausted schedule keeps answering WouldBlock (a serial line has no end of input)
+pub struct EhSrc {
+    q: VecDeque<u32>,
+    n: Rc<Cell<usize>>,
+    exhausted: Rc<Cell<usize>>,
+}
+impl embedded_hal_02::serial::Read<u8> for EhSrc {
+    type Error = u16;
+    fn read(&mut self) -> nb::Result<u8, u16> {
+        loop {
+            match self.q.pop_front() {
+                None => {
+                    self.exhausted.set(self.exhausted.get() + 1);
+                    return Err(nb::Error::WouldBlock);
+                }
+                Some(WB) => return Err(nb::Error::WouldBlock),
+                Some(INT) => continue, // no such thing on this interface
+                Some(OTH) => return Err(nb::Error::Other(0x0bad)),
+                Some(b) => {
+                    self.n.set(self.n.get() + 1);
+                    return Ok(b as u8);
+                }
+            }
+        }
+    }
+}
+
+/// repeated calls through SmlReader::from_eh_reader until the exhausted source has answered WouldBlock twice
+pub fn run_faulty_eh(items: &[u32], api: u8) -> Vec<Ev> {
+    match catch_unwind(AssertUnwindSafe(|| {
+        let n = Rc::new(Cell::new(0usize));
+        let ex = Rc::new(Cell::new(0usize));
+        let mut r = SmlReader::with_vec_buffer().from_eh_reader(EhSrc { q: items.iter().cloned().collect(), n: n.clone(), exhausted: ex.clone() });
+        let mut out: Vec<Ev> = vec![];
+        let mut calls = 0;
+        while ex.get() < 2 {
+            calls += 1;
+            if calls > items.len() + 12 {
+                out.push(vec![n.get() as i64, 12]);
+                break;
+            }
+            let e: Ev = match api {
+                0 => match r.next::<DecodedBytes>() {
+                    None => vec![n.get() as i64, 10],
+                    Some(x) => ev_read(n.get() as i64, x),
+                },
+                1 => {
+                    let x = r.read::<DecodedBytes>();
+                    ev_read(n.get() as i64, x)
+                }
+                2 => match r.next_nb::<DecodedBytes>() {
+                    Ok(None) => vec![n.get() as i64, 10],
+                    Ok(Some(m)) => ev_ok(n.get() as i64, m),
+                    Err(nb::Error::WouldBlock) => vec![n.get() as i64, 13],
+                    Err(nb::Error::Other(e)) => ev_of_read_err(n.get() as i64, &e),
+                },
+                _ => match r.read_nb::<DecodedBytes>() {
+                    Ok(m) => ev_ok(n.get() as i64, m),
+                    Err(nb::Error::WouldBlock) => vec![n.get() as i64, 13],
+                    Err(nb::Error::Other(e)) => ev_of_read_err(n.get() as i64, &e),
+                },
+            };
+            out.push(e);
+        }
+        out
+    })) {
+        Ok(v) => v,
+        Err(_) => vec![vec![-1, 8]],
+    }
+}
+
+fn fault_record_eh(ks: &mut KeyedSink, items: &[u32], api: u8) {
+    let items: Vec<u32> = items.iter().cloned().filter(|x| *x != INT).collect();
+    let res = run_faulty_eh(&items, api);
+    let bytes: Vec<u32> = items.iter().cloned().filter(|x| *x < 256).collect();
+    let clean = run_faulty_eh(&bytes, api);
+    let fresh = match items.iter().position(|x| *x == OTH) {
+        Some(io) => run_faulty_eh(&items[io + 1..], api),
+        None => run_faulty_eh(&[], api),
+    };
+    let key = format!("eh{}|{:?}", api, items);
+    ks.put(&key, || format!("{{\"eh\":1,\"items\":{},\"api\":{},\"res\":{},\"clean\":{},\"fresh\":{}}}", jarr(&items), api, jarr2(&res), jarr2(&clean), jarr2(&fresh)));
+}
+
 fn fault_record(ks: &mut KeyedSink, items: &[u32], api: u8) {
+    if items.len() % 3 == 0 || items.len() < 12 {
+        // the embedded-hal source on a third of the schedules (and on all the short ones)
+        fault_record_eh(ks, items, api);
+    }
     let res = run_faulty(items, api);
     let bytes: Vec<u32> = items.iter().cloned().filter(|x| *x < 256).collect();
     let clean = run_faulty(&bytes, api);
@@ -115,7 +204,7 @@ fn fault_record(ks: &mut KeyedSink, items: &[u32], api: u8) {
         None => run_faulty(&[], api),
     };
     let key = format!("{}|{:?}", api, items);
-    ks.put(&key, || format!("{{\"items\":{},\"api\":{},\"res\":{},\"clean\":{},\"fresh\":{}}}", jarr(items), api, jarr2(&res), jarr2(&clean), jarr2(&fresh)));
+    ks.put(&key, || format!("{{\"eh\":0,\"items\":{},\"api\":{},\"res\":{},\"clean\":{},\"fresh\":{}}}", jarr(items), api, jarr2(&res), jarr2(&clean), jarr2(&fresh)));
 }
 
 pub fn fault_bases() -> Vec<Vec<u8>> {
@@ -361,7 +450,7 @@ pub fn cmd_c10(tier: &str, out: &str) {
     let mut ks = KeyedSink::create(out);
     let mut rng = Rng::new(seed());
     let corpus = corpus_payloads();
-    let ncases = if thorough { 6000 } else { 700 };
+    let ncases = if thorough { 2500 } else { 700 };
     for case in 0..ncases {
         // files: generated (with the generator's intent) or real meter payloads
         let k = if case % 7 == 0 { 0 } else { 1 + rng.below(3) };
